@@ -540,7 +540,10 @@ def _replay_inner(v):
     if v["function"] == "UnionFind":
         from solvor.utils.data_structures import UnionFind
 
-        o = UnionFind(w["n"])
+        try:
+            o = UnionFind(w["n"])
+        except Exception as ex:  # noqa: BLE001
+            return {"function": "UnionFind", "kind": "reference_mismatch", "detail": f"UnionFind({w['n']}) raised {ex!r}"}
         part = frozenset(frozenset([i]) for i in range(w["n"]))
         for op in w["history"]:
             op = tuple(op)
@@ -565,7 +568,10 @@ def _replay_inner(v):
 
     n = w["n"]
     src = None if w["init"] is None else list(w["init"])
-    o = FenwickTree(n) if src is None else FenwickTree(src)
+    try:
+        o = FenwickTree(n) if src is None else FenwickTree(src)
+    except Exception as ex:  # noqa: BLE001
+        return {"function": "FenwickTree", "kind": "reference_mismatch", "detail": f"the constructor raised {ex!r}"}
     ref = [0] * n if w["init"] is None else list(w["init"])
     for op in w["history"] + ([w["op"]] if w.get("op") else []):
         op = tuple(op)
